@@ -137,13 +137,17 @@ type model struct {
 	// in it must not be merged even when everything observable is equal.
 	scanMark int
 	start    string // initial persisted state ("" = first initialisation -> sync)
+	pr, dr   int    // replicas per datacenter (0: 2 / 1)
 }
 
 var stores = map[uint64]string{1: "dc1", 2: "dc1", 3: "dc1", 4: "dc2", 5: "dc2"}
 
+// replica counts of the two datacenters (set by the model at Reset; 2/1 unless the scope says otherwise)
+var primaryReplicas, drReplicas = 2, 1
+
 func baseConf(mode, labelKey string) config.ReplicationModeConfig {
 	return config.ReplicationModeConfig{ReplicationMode: mode, DRAutoSync: config.DRAutoSyncReplicationConfig{
-		LabelKey: labelKey, Primary: "dc1", DR: "dc2", PrimaryReplicas: 2, DRReplicas: 1,
+		LabelKey: labelKey, Primary: "dc1", DR: "dc2", PrimaryReplicas: primaryReplicas, DRReplicas: drReplicas,
 		WaitStoreTimeout: typeutil.Duration{Duration: time.Minute}, WaitSyncTimeout: typeutil.Duration{Duration: time.Minute},
 		WaitAsyncTimeout: typeutil.Duration{Duration: 2 * time.Minute},
 	}}
@@ -217,6 +221,10 @@ func (m *model) Reset() {
 		m.cancel()
 	}
 	vclock.Enable(vclock.Epoch)
+	primaryReplicas, drReplicas = 2, 1
+	if m.pr > 0 {
+		primaryReplicas, drReplicas = m.pr, m.dr
+	}
 	replication.VerifSetScanSizes(m.batch, (m.batch+1)/2)
 	ctx, cancel := context.WithCancel(context.Background())
 	m.cancel = cancel
@@ -461,19 +469,19 @@ func (m *model) Apply(i int) *hist.Violation {
 	// tick-driven transitions: the guards of the statement
 	if o.kind == "tick" && before.mode == "dr-auto-sync" && after.state != before.state {
 		p, d := m.failCounts()
-		canSync := p < 2 && d < 1
+		canSync := p < primaryReplicas && d < drReplicas
 		up := 0
-		if p < 2 {
-			up += 2 - p
+		if p < primaryReplicas {
+			up += primaryReplicas - p
 		}
-		if d < 1 {
-			up += 1 - d
+		if d < drReplicas {
+			up += drReplicas - d
 		}
-		hasMajority := up*2 > 3
+		hasMajority := up*2 > primaryReplicas+drReplicas
 		switch after.state {
 		case pb.DRAutoSyncState_ASYNC:
 			if canSync || !hasMajority || !m.timedOut {
-				return bad("async-guard", "moved to async with %d/%d failed stores in dc1/dc2 (replicas 2/1), majority possible=%v, timeout passed=%v", p, d, hasMajority, m.timedOut)
+				return bad("async-guard", "moved to async with %d/%d failed stores in dc1/dc2 (replicas %d/%d), majority possible=%v, timeout passed=%v", p, d, primaryReplicas, drReplicas, hasMajority, m.timedOut)
 			}
 		case pb.DRAutoSyncState_SYNC_RECOVER:
 			if before.state != pb.DRAutoSyncState_ASYNC || !canSync {
@@ -536,6 +544,7 @@ func main() {
 			{Name: "2regions+config/from-sync-recover", Tiers: "quick", Depth: 6, NewModel: func() hist.Model { return wrap{onlyGoodReports(from(newModel(2, -1, 1024, false, true), "sync_recover"))} }},
 			{Name: "3regions/from-async", Tiers: "quick", Depth: 5, NewModel: func() hist.Model { return wrap{from(newModel(3, -1, 2, false, false), "async")} }},
 			{Name: "2regions+faults/from-sync-recover", Tiers: "quick", Depth: 5, NewModel: func() hist.Model { return wrap{from(newModel(2, -1, 1024, true, false), "sync_recover")} }},
+			{Name: "3regions/replicas2+2", Tiers: "quick", Depth: 5, NewModel: func() hist.Model { m := newModel(3, -1, 2, false, false); m.pr, m.dr = 2, 2; return wrap{m} }},
 			{Name: "3regions+gap", Tiers: "quick", Depth: 5, NewModel: func() hist.Model { return wrap{newModel(3, 1, 2, false, false)} }},
 			{Name: "2regions+faults+config", Tiers: "quick", Depth: 4, NewModel: func() hist.Model { return wrap{newModel(2, -1, 1024, true, true)} }},
 			{Name: "5regions/batch3/from-sync-recover", Tiers: "quick", Depth: 8, NewModel: func() hist.Model { return wrap{from(newModel5(), "sync_recover")} }},
